@@ -1282,6 +1282,56 @@ func c20Spaces(c *fw.Ctx) {
 
 	// Dedup groups by text, not by IsDuplicate: records of a registered private type (whose isDuplicate is constant
 	// false, like OPT's) with the same text are one group all the same.
+	// owners spelled as a zone file may spell them: a letter behind a backslash is still a letter, and its case is
+	// owner-name case ("text identical up to owner-name case and TTL")
+	c.Space("dedup-escaped-letter", "lists of two and three A records at the owners {\\A.nl., \\a.nl., \\097.NL.} spelled with an escaped letter (TTLs 10, 20, 30; same address), in every order: the first two spell one text up to letter case and are one group — one representative, the first, with the smaller TTL; the \\DDD spelling prints differently and stays; non-trivial: all", true,
+		func(emit func(func(*fw.R))) {
+			owners := []string{`\A.nl.`, `\a.nl.`, `\097.NL.`}
+			ttls := []uint32{10, 20, 30}
+			for _, list := range [][]int{{0, 1}, {1, 0}, {0, 1, 2}, {2, 1, 0}, {1, 2, 0}, {0, 0}, {1, 1, 0}} {
+				list := list
+				emit(func(r *fw.R) {
+					r.Nontrivial()
+					var in []dns.RR
+					for _, i := range list {
+						in = append(in, &dns.A{Hdr: dns.RR_Header{Name: owners[i], Rrtype: dns.TypeA, Class: dns.ClassINET, Ttl: ttls[i]}, A: net.IP{192, 0, 2, 1}})
+					}
+					// expected by the statement: group = text with the owner lower-cased and the TTL removed
+					type g struct {
+						pos int
+						ttl uint32
+					}
+					var order []string
+					groups := map[string]*g{}
+					for pos, rr := range in {
+						k := c20TextGroup(rr)
+						if x, ok := groups[k]; ok {
+							if rr.Header().Ttl < x.ttl {
+								x.ttl = rr.Header().Ttl
+							}
+							continue
+						}
+						groups[k] = &g{pos, rr.Header().Ttl}
+						order = append(order, k)
+					}
+					desc := fmt.Sprint(list)
+					out := dns.Dedup(in, nil)
+					if len(out) != len(order) {
+						var got []string
+						for _, rr := range out {
+							got = append(got, rr.String())
+						}
+						r.Fail("dedup/escaped-letter-case", "Dedup of owners %v (list %s) returned %d records %q, the statement's grouping gives %d", owners, desc, len(out), got, len(order))
+						return
+					}
+					for i, k := range order {
+						if out[i] != in[groups[k].pos] || out[i].Header().Ttl != groups[k].ttl {
+							r.Fail("dedup/escaped-letter-case", "Dedup (list %s): representative %d is %q, want the record at position %d with TTL %d", desc, i, out[i], groups[k].pos, groups[k].ttl)
+						}
+					}
+				})
+			}
+		})
 	c.Space("dedup-private", "all lists of length ≤ 4 over the pool {private-type record P with TTL 5, P with TTL 2, the same type with another payload (TTL 7), an MX record (TTL 3)} (records of a type registered through PrivateHandle never compare as duplicates, Dedup goes by their text): one representative per group in input order, the first record of the group, carrying the group's smallest TTL; non-trivial: the list holds P twice", true,
 		func(emit func(func(*fw.R))) {
 			mk := func(i int) dns.RR {
